@@ -438,3 +438,232 @@ def load(crate="lol_html", features=(), release=False):
     if k not in _mir:
         _mir[k] = Mir(crate, features, release)
     return _mir[k]
+
+
+# ---------------------------------------------------------------------------------------------
+# value provenance atoms and generic guard detection (used to auto-discharge *unreviewed* sites
+# of inventory rules: deliberately generous — it can only turn a report into a non-report)
+ACCESSORS = re.compile(r"(^|::)(len|is_empty|is_some|is_none|is_ok|is_err|as_ref|as_mut|as_slice|as_bytes|as_str|deref|deref_mut|borrow|borrow_mut|get|get_mut|first|last|clone|copied|cloned|into|from|checked_sub|checked_add|min|max|saturating_sub|capacity|iter|position|find|memchr\d?)$")
+
+
+def atoms_of_place(f, p, depth=0, seen=None):
+    seen = set() if seen is None else seen
+    out = set()
+    for e in p["proj"]:
+        if isinstance(e, dict) and "index" in e:
+            out |= atoms_of_local(f, e["index"], depth + 1, seen)
+    loc, proj = f._root_place_p(p)
+    if 1 <= loc <= f.rec["arg_count"]:
+        parts = [e["f"] for e in proj if isinstance(e, dict) and "f" in e]
+        out.add("arg%d" % loc + "".join("." + x for x in parts))
+        return out
+    # tuple fields of checked arithmetic etc.: same source as the whole local
+    return out | atoms_of_local(f, loc, depth + 1, seen)
+
+
+def atoms_of_operand(f, o, depth=0, seen=None):
+    if o["k"] in ("copy", "move"):
+        return atoms_of_place(f, o["p"], depth, seen)
+    return set()
+
+
+def atoms_of_local(f, loc, depth=0, seen=None):
+    seen = set() if seen is None else seen
+    if loc in seen or depth > 16:
+        return set()
+    seen.add(loc)
+    if 1 <= loc <= f.rec["arg_count"]:
+        return {"arg%d" % loc}
+    out = set()
+    for kind, bi, x in f.defs_of(loc):
+        if kind == "call":
+            out.add("call@%d" % bi)
+            if re.search(r"(^|::)(min|clamp|saturating_\w+|checked_\w+|wrapping_\w+)$", callee_key(x)):
+                out.add("clamped")
+            if ACCESSORS.search(callee_key(x)):
+                for a in x["args"]:
+                    out |= atoms_of_operand(f, a, depth + 1, seen)
+            continue
+        rv = x["rv"]
+        k = rv["k"]
+        if k in ("use", "cast", "un", "repeat") and "o" in rv:
+            out |= atoms_of_operand(f, rv["o"], depth + 1, seen)
+        elif k in ("ref", "rawptr", "discr") and "p" in rv:
+            out |= atoms_of_place(f, rv["p"], depth + 1, seen)
+        elif k == "bin":
+            out |= atoms_of_operand(f, rv["a"], depth + 1, seen) | atoms_of_operand(f, rv["b"], depth + 1, seen)
+        elif k == "agg":
+            for a in rv["ops"]:
+                out |= atoms_of_operand(f, a, depth + 1, seen)
+    # locals assigned through projections (x.0 = ..) are ignored: generous only matters one way
+    return out
+
+
+def site_atoms(f, bi):
+    t = f.blocks[bi]["term"]
+    if t["k"] == "assert":
+        return atoms_of_operand(f, t["cond"])
+    if t["k"] == "call":
+        out = set()
+        for a in t["args"]:
+            out |= atoms_of_operand(f, a)
+        return out
+    return set()
+
+
+def guarding_branches(f, bi):
+    """switch blocks that dominate `bi` and have a successor from which `bi` is unreachable
+    (without going back through the switch): real guards of the site."""
+    out = []
+    for sb, b in enumerate(f.blocks):
+        t = b["term"]
+        if t["k"] != "switch" or sb == bi or not f.dominates(sb, bi):
+            continue
+        succ = [x[1] for x in t["ts"]] + [t["else"]]
+        if any(s is not None and bi not in f.reachable_blocks(s, avoid=(sb,)) for s in succ):
+            out.append(sb)
+    return out
+
+
+def guarded_by_related_test(f, bi):
+    """(True, description) if some real guard's condition shares a provenance atom with the
+    operands of the panic-capable terminator of block `bi`."""
+    sa = site_atoms(f, bi)
+    if not sa:
+        return False, "no operand provenance"
+    if "clamped" in sa:
+        return True, "operand clamped (min / saturating / checked / wrapping arithmetic)"
+    for sb in guarding_branches(f, bi):
+        ga = atoms_of_operand(f, f.blocks[sb]["term"]["d"])
+        common = sa & ga
+        if common:
+            return True, "guarded by the branch in bb%d on %s" % (sb, ",".join(sorted(common))[:80])
+    return False, "no dominating test of " + ",".join(sorted(sa))[:80]
+
+
+# ---------------------------------------------------------------------------------------------
+class CallGraph:
+    """over-approximate crate-local call graph: direct / resolved calls, closure creation, function
+    items mentioned as values (fn pointers), and calls through trait bounds or dyn (edges to every
+    local implementation of that trait method, including trait default bodies)."""
+
+    def __init__(self, mir):
+        self.mir = mir
+        self.fns = {f.path: f for f in mir.fns if not mir.is_test_fn(f)}
+        tm = {}
+        for f in self.fns.values():
+            tr = f.rec.get("trait")
+            if tr:
+                tm.setdefault((strip_generics(tr), last_seg(f.path)), []).append(f.path)
+        self.trait_methods = tm
+        self.closures = [p for p in self.fns if "{closure#" in p]
+        self.succ = {p: set() for p in self.fns}
+        for p, f in self.fns.items():
+            out = self.succ[p]
+            for b in f.blocks:
+                for st in b["stmts"]:
+                    if st["k"] != "assign":
+                        continue
+                    rv = st["rv"]
+                    if rv["k"] == "agg" and rv.get("what") == "closure" and rv["name"] in self.fns:
+                        out.add(rv["name"])
+                    for o in _rv_operands(rv):
+                        self._mention(o, out)
+                t = b["term"]
+                if t["k"] != "call":
+                    continue
+                for a in t["args"]:
+                    self._mention(a, out)
+                c = t["callee"]
+                if c in self.fns:
+                    out.add(c)
+                if t.get("how") in ("unresolved", "resolved") or c not in self.fns:
+                    raw = t.get("raw") or c
+                    if re.search(r"ops::(function::)?Fn(Mut|Once)?::call", raw):
+                        out.update(self.closures)       # a call through dyn Fn / a generic Fn bound: any closure
+                        continue
+                    key = (strip_generics(raw.rsplit("::", 1)[0]), last_seg(raw))
+                    for q in tm.get(key, ()):
+                        if t.get("how") == "unresolved" or c not in self.fns:
+                            out.add(q)
+
+    def _mention(self, o, out):
+        if o.get("k") == "const" and "fn" in o:
+            fnp = o["fn"]
+            if fnp in self.fns:
+                out.add(fnp)
+            else:
+                key = (strip_generics(fnp.rsplit("::", 1)[0]), last_seg(fnp))
+                m = re.match(r"<.* as (.*)>$", key[0])
+                if m:
+                    key = (strip_generics(m.group(1)), key[1])
+                for q in self.trait_methods.get(key, ()):
+                    out.add(q)
+
+    def reachable(self, roots):
+        seen = set()
+        todo = [r for r in roots]
+        while todo:
+            p = todo.pop()
+            if p in seen or p not in self.succ:
+                continue
+            seen.add(p)
+            todo += list(self.succ[p])
+        return seen
+
+
+def _rv_operands(rv):
+    for k in ("o", "a", "b"):
+        if k in rv and isinstance(rv[k], dict):
+            yield rv[k]
+    for o in rv.get("ops", ()):
+        yield o
+
+
+def _places_in(x):
+    """every place read in a statement / terminator JSON (operands, rvalue places, call args)"""
+    if isinstance(x, dict):
+        if "local" in x and "proj" in x:
+            yield x
+            for e in x["proj"]:
+                if isinstance(e, dict) and "index" in e:
+                    yield {"local": e["index"], "proj": []}
+            return
+        for k, v in x.items():
+            if k in ("dest",):
+                continue
+            yield from _places_in(v)
+    elif isinstance(x, list):
+        for v in x:
+            yield from _places_in(v)
+
+
+def uninspected_results(f, ty_rx=r"^std::result::Result<"):
+    """call sites whose Result-typed destination is never read afterwards (`let _ = fallible();`
+    or a bare `fallible();`): [(block, callee, type)].  A drop terminator is not a read."""
+    reads = set()
+    for b in f.blocks:
+        for st in b["stmts"]:
+            if st["k"] == "assign":
+                for p in _places_in(st["rv"]):
+                    reads.add(p["local"])
+                for e in st["p"]["proj"]:
+                    if isinstance(e, dict) and "index" in e:
+                        reads.add(e["index"])
+        t = b["term"]
+        if t["k"] == "drop":
+            continue
+        for k in ("d", "args", "cond", "func"):
+            if k in t:
+                for p in _places_in(t[k]):
+                    reads.add(p["local"])
+    out = []
+    for bi, b in enumerate(f.blocks):
+        t = b["term"]
+        if t["k"] != "call" or b["cleanup"] or t["dest"]["proj"]:
+            continue
+        loc = t["dest"]["local"]
+        ty = f.rec["locals"][loc]
+        if loc != 0 and re.search(ty_rx, ty) and loc not in reads:
+            out.append((bi, callee_key(t), ty))
+    return out
